@@ -57,10 +57,19 @@ class UnknownName(Exception):
     pass
 
 
+LOADED_NAMES = set()
+UNKNOWN_TOGGLE = [0]
+
+
 def render_elem(x, cols_now, for_plain):
     if x >= NAME:
         c = x - NAME
         if not for_plain:
+            if c >= len(samples.PNE) or ('c%d' % c) not in LOADED_NAMES:
+                # a string that is no channel NAME of the file: every other time it is the LABEL ($PnS) of a channel
+                # - a label is not a name, the key is unknown all the same
+                UNKNOWN_TOGGLE[0] += 1
+                return ('L%d' % (c % max(1, len(LOADED_NAMES)))) if UNKNOWN_TOGGLE[0] % 2 else (samples.name(c) if c < 90 else 'zz')
             return samples.name(c) if c < 90 else 'zz'
         if c in cols_now:
             return cols_now.index(c)
@@ -123,6 +132,8 @@ class Runner(object):
         self.chk = chk
         self.R, self.C = R, C
         self.base = samples.load_base(R, C)
+        LOADED_NAMES.clear()
+        LOADED_NAMES.update(self.base.channels)
         self.saved = np.array(self.base.view(np.ndarray), copy=True)
         self.plain = np.array(self.saved, copy=True)
         self.neg_done = False
